@@ -418,6 +418,24 @@ fn first_location(out: &str, file: &str) -> Option<(usize, usize)> {
 	None
 }
 
+/// end of the first reported range (`L:C-C2` or `L:C-L2:C2`), if the location is a range
+fn first_range_end(out: &str, file: &str) -> Option<(usize, usize)> {
+	for l in out.lines() {
+		let needle = format!("{file}:");
+		let Some(rest) = l.find(&needle).map(|p| &l[p + needle.len()..]) else { continue };
+		let loc: String = rest.chars().take_while(|c| c.is_ascii_digit() || *c == ':' || *c == '-').collect();
+		let (start, end) = loc.split_once('-')?;
+		let start_line: usize = start.split(':').next()?.parse().ok()?;
+		let mut it = end.trim_end_matches(':').split(':');
+		let a: usize = it.next()?.parse().ok()?;
+		return Some(match it.next().and_then(|b| b.parse::<usize>().ok()) {
+			Some(b) => (a, b),
+			None => (start_line, a),
+		});
+	}
+	None
+}
+
 pub fn planted_case(src: &mut Src) -> CaseOut {
 	let p = gen_planted(src);
 	let (want_line, want_col) = line_col(&p.code, p.offset);
@@ -450,6 +468,13 @@ pub fn planted_case(src: &mut Src) -> CaseOut {
 						problems.push(format!("{:?} planted at line {want_line} column {want_col} is reported at line {l}:\n{text}", p.plant));
 					} else if p.ascii_before_on_line && c != want_col {
 						problems.push(format!("{:?} planted at line {want_line} column {want_col} is reported at column {c}:\n{text}", p.plant));
+					}
+					// when a range is printed its end lies at or after its start (a construct that ends with the text,
+					// without a final line feed, is the boundary case)
+					if let Some((el, ec)) = first_range_end(&text, "t.jsonnet") {
+						if el < l || (el == l && ec < c) {
+							problems.push(format!("{:?} planted at {want_line}:{want_col}: the reported range ends at {el}:{ec}, before its start {l}:{c}:\n{text}", p.plant));
+						}
 					}
 				}
 				None => problems.push(format!("no location in the error text:\n{text}")),
